@@ -91,6 +91,15 @@ func c14Mismatch(c *core.C, what, text string, params gen.Params, want, got stri
 
 // positive cases ------------------------------------------------------------------------------
 
+// texts that are refused only after part of an expression has been converted
+var c14HalfWayErrors = []string{
+	"check if 7 + {missing} == 8",
+	"check if 1 < 2 && $y == hex:abc",
+	"check if 1 < 2 || $d < 2023-13-01T00:00:00Z",
+	"check if true && [1, $v].contains(1)",
+	"check if \"a\".starts_with(\"a\") && 3 * {nope} > 1",
+}
+
 func c14Positive(c *core.C) {
 	r := c.R
 	p := parser.New()
@@ -99,6 +108,17 @@ func c14Positive(c *core.C) {
 		kind := r.Intn(6)
 		depth := 1 + r.Intn(5)
 		c.Eval(1)
+		if i%2 == 1 {
+			// a parse that fails half-way through an expression comes first (same parser object,
+			// then the package-level helpers): what the next, valid text denotes must not depend on it
+			bad := c14HalfWayErrors[r.Intn(len(c14HalfWayErrors))]
+			lib.Try(func() {
+				_, _ = p.Check(bad, nil)
+				_, _ = p.Rule("r($x) <- p($x), "+bad[len("check if "):], nil)
+				_, _ = parser.FromStringCheck(bad)
+			})
+			c.Count("parses_after_a_failed_parse", 1)
+		}
 		switch kind {
 		case 0:
 			toks, want := gen.GFact(r, params)
@@ -600,8 +620,9 @@ var c14Levels = []string{"or", "and", "cmp", "add", "mul", "not", "method"}
 
 func init() {
 	core.Register(&core.Prop{
-		ID:    "C14",
-		Level: "exploration",
+		ID:        "C14",
+		MinCounts: map[string]int{"parses_after_a_failed_parse": 2000},
+		Level:     "exploration",
 		Rule: "case 0: 28 fixed precedence / associativity texts (left-nesting chains 1-2-3, 8/4/2, mixed levels, ! before method chains, method arguments that are full expressions, nested and required parentheses). case 1: negative catalogue - unbound parameter, malformed date, malformed byte literal, variable in a set, each inside a predicate, an expression, a method argument, a check, a policy and whole blocks; six chained comparisons in rules, checks and policies - each must return an error. 2/3 of the other cases: 12 grammar-generated texts each (facts, rules, checks, policies, blocks, authorizers) drawn as syntax TREES of depth <=6 over every operator, printed with exactly the parentheses the documented precedence requires plus random redundant ones and random layout (spaces, tabs, newlines, none), parameters bound to every term kind; the parse must equal the value computed from the tree, and is then added to a Builder, a BlockBuilder and an Authorizer. 1/3: 40 token-level corruptions each (delete / duplicate / swap / replace / insert junk / truncate, random bytes, unbound parameters) checked for panics and add-safety. " +
 			"Non-trivial = distinct expected postfix shapes (operator sequence with operand kinds), negative texts, fixed texts. Explored lexical domain: names [a-z][a-zA-Z0-9_:]* not starting with prefix/suffix/matches/length/contains/true/false, non-negative integer literals, strings without quote and backslash, RFC 3339 dates with Z or numeric offset, hex: with an even number of digits, comments only before the first element.",
 		Assumptions: []string{"GRAMMAR.md is the documented grammar; the name lexeme is not defined there, so names that start with a lexer keyword are outside the explored domain"},
